@@ -528,6 +528,7 @@ def _execute(w, case, prefix, fp, explore_sched, out):
                     'hang': hang2,
                     'events': {k: [(e[0], e[1] if e[0] == 'failed' else None) for e in v] for k, v in ev2.items()},
                     'handle_reused': cc.handle == c_conn.handle,
+                    'enc': list(enc),
                     'stores': {'i': store_dump(w, 0), 'r': store_dump(w, 1)},
                     'keys': {k: [e[1] for e in v if e[0] == 'paired'] for k, v in ev2.items()},
                 }
